@@ -867,14 +867,14 @@ pub fn c11_differential(stream: &[u8], limit: Option<usize>, sched: &mut dyn FnM
     c11_differential_fds(stream, limit, sched, obs, render, &mut handed)
 }
 
-/// same; `handed` receives the descriptor numbers the scripted stream actually passed to the
-/// used connection (the schedule may attach real descriptors to its reads)
 thread_local! {
     /// (read index, new payload limit): the owner reconfigures the used connection before that
     /// read (one-shot plan, taken by the next differential run)
     pub static C11_LIMIT_PLAN: std::cell::RefCell<Vec<(usize, usize)>> = std::cell::RefCell::new(Vec::new());
 }
 
+/// same; `handed` receives the descriptor numbers the scripted stream actually passed to the
+/// used connection (the schedule may attach real descriptors to its reads)
 pub fn c11_differential_fds(stream: &[u8], limit: Option<usize>, sched: &mut dyn FnMut(usize, usize, usize) -> ReadEv, obs: &mut Obs, render: &mut String, handed: &mut Vec<RawFd>) -> Result<usize, Fail> {
     let plan: Vec<(usize, usize)> = C11_LIMIT_PLAN.with(|p| std::mem::take(&mut *p.borrow_mut()));
     let mut u = ConnRun::new(stream.to_vec(), limit, true);
@@ -1915,6 +1915,7 @@ fn c12_socket(input: &Input, obs: &mut Obs) -> Result<(), Fail> {
     let mut pipes: Vec<Pipe> = Vec::new();
     let res = (|| -> Result<(), Fail> {
         let (sender, receiver) = UnixStream::pair().map_err(|e| Fail::new("C12:harness", e.to_string()))?;
+        let receiver_fd = receiver.as_raw_fd();
         receiver.set_nonblocking(true).ok();
         sender.set_nonblocking(true).ok();
         let mut conn = HttpConnection::new(receiver);
@@ -1936,7 +1937,16 @@ fn c12_socket(input: &Input, obs: &mut Obs) -> Result<(), Fail> {
             }
             let chunk = &stream[pos..pos + n];
             let drain = |conn: &mut HttpConnection<UnixStream>, kept: &mut Vec<Request>| -> Result<(), Fail> {
+                // read while the socket has something (what a read of an empty socket returns is
+                // not relied upon)
+                let mut rounds = 0;
                 loop {
+                    let mut avail: libc::c_int = 0;
+                    let rc = unsafe { libc::ioctl(receiver_fd, libc::FIONREAD, &mut avail) };
+                    rounds += 1;
+                    if rc != 0 || avail <= 0 || rounds > 100_000 {
+                        break;
+                    }
                     match conn.try_read() {
                         Ok(()) => {}
                         Err(micro_http::ConnectionError::StreamReadError(_)) => break,
